@@ -97,11 +97,14 @@ def html_to_nodes(
     for child in root:
         if child.name == "img":
             if "src" not in child.attrs:
-                return [
+                # report this element, keep the ones already converted
+                # (their names are registered with the document)
+                nodes_list.append(
                     renderer.reporter.error(
                         "<img> missing 'src' attribute", line=line_number
                     )
-                ]
+                )
+                continue
             content = "\n".join(
                 f":{k}: {_quote(v)}"
                 for k, v in sorted(child.attrs.items())
